@@ -17,6 +17,8 @@ func filters(m dsl.Matcher) {
 	m.Match("probe($x)").Where(m["x"].Const && m["x"].Value.Int() > 40).Report("big $x")
 	m.Match("for $*_ { $*body }").Where(m["body"].Contains("probe($y)")).Report("loop with probe")
 	m.Match("if $c { $*_ }").Where(m["c"].Type.Is("bool") && m["c"].Pure).Report("if $c")
+	m.Match("$x := $y").Where(m["y"].Contains("$x")).Report("self-assign $x")
+	m.Match("func() { $*_ }()").Where(m["$$"].Contains("probe($x)")).Report("iife with probe")
 	m.Match("func() { $*_ }()").Report("iife")
 	m.Match("probeT($x)").Where(m["x"].Type.Is("map[$t]$t")).Report("same-kv $x")
 	m.Match("probeT($x, $y)").Where(m["x"].Type.Is("[]$t") && m["y"].Type.Is("$t")).Report("elem $x $y")
@@ -160,5 +162,74 @@ func runC09(c *Ctx) error {
 			res.Sample(map[string]interface{}{"history": hist, "probe": pool[probe].Name, "reports": len(got)})
 		}
 	}
-	return walkSuite(c, "walk-ctx", cases)
+	if err := walkSuite(c, "walk-ctx", cases); err != nil {
+		return err
+	}
+	// context facts must not leak from one rule or node to the next *inside* a run either: rule sets drawn
+	// from a pool of context-sensitive rules (Contains presets, type-pattern variables, custom filters,
+	// Deadcode, Node.Parent, SinkType) must report exactly what each rule reports when run alone
+	return ruleSetComposition(c, "isolation", "c09-isolation", c09Pool, c09Extra, c09Decls)
 }
+
+const c09Decls = `func isBig(ctx *dsl.VarFilterContext) bool {
+	return ctx.SizeOf(ctx.Type) > 8
+}
+
+`
+
+var c09Pool = []poolRule{
+	{"$x := $y", `m["y"].Contains("$x")`},
+	{"$x = $y", `m["y"].Contains("$x")`},
+	{"func() { $*_ }()", `m["$$"].Contains("probe($x)")`},
+	{"func() { $*_ }()", `m["$$"].Contains("$x.Done()")`},
+	{"go func() { $*_ }()", `m["$$"].Contains("$x.Done()")`},
+	{"for $*_ { $*body }", `m["body"].Contains("probe($y)")`},
+	{"if $c { $*_ }", `m["c"].Contains("$x > $y")`},
+	{"probe($x)", `m["x"].Type.Is("$t")`},
+	{"pair($x, $y)", `m["x"].Type.Is("[]$t") && m["y"].Type.Is("$t")`},
+	{"pair($x, $y)", `m["x"].Type.Is("map[$k]$v") && m["y"].Type.Is("$k")`},
+	{"pair($x, $y)", `m["x"].Type.IdenticalTo(m["y"])`},
+	{"pair($x, $y)", `m["x"].Filter(isBig)`},
+	{"probe($x)", `m["x"].Filter(isBig)`},
+	{"probe($x)", `m.Deadcode()`},
+	{"probe($x)", `m["$$"].Node.Parent().Is("ExprStmt")`},
+	{"probe($x)", `m["$$"].SinkType.Is("int")`},
+	{"probe($x)", ""},
+	{"$x.Done()", ""},
+	{"$x > $y", `m["x"].Pure`},
+}
+
+const c09Extra = `
+type WG struct{}
+
+func (*WG) Done() {}
+func (*WG) Wait() {}
+
+func pair(a, b interface{}) {}
+
+func ctxUse(x int, s []int, ss []string, m map[string]int, wg *WG) int {
+	a := x
+	a = a + 1
+	b := probe(a)
+	b = x
+	go func() { wg.Done() }()
+	func() { probe(3) }()
+	func() { wg.Done() }()
+	pair(s, 1)
+	pair(ss, 1)
+	pair(ss, "s")
+	pair(m, "k")
+	pair(m, 2)
+	pair(x, x)
+	pair(s, ss)
+	for i := 0; i < x; i++ {
+		probe(i)
+	}
+	var sink int = probe(9)
+	if x > b {
+		return probe(10)
+	}
+	wg.Wait()
+	return sink
+}
+`
